@@ -123,10 +123,7 @@ def judge(c, ir, ms):
     f = H.lingo_oracle(c['script'], lingo)
     mt = H.text_pair(ms)
     if f:
-        fid = None
-        if has_compound_id(c['script']) and mt is not None and mt[0] == lingo:
-            fid = 'C02-compound-object-index'
-        out.append((f, 'property', fid))
+        out.append((f, 'property', None))
         return out
     if ms is not None:
         if mt is None:
